@@ -1057,8 +1057,8 @@ type CallTemplateExpression struct {
 
 func (cte CallTemplateExpression) IsNode() bool { return true }
 func (cte CallTemplateExpression) Write(w io.Writer, indent int) error {
-	// Rewrite to new call syntax
-	return writeIndent(w, indent, `@`, cte.Expression.Value)
+	// Rewrite to new call syntax, written exactly as the call it will be parsed as next time.
+	return TemplElementExpression{Expression: cte.Expression}.Write(w, indent)
 }
 
 // TemplElementExpression can be used to create and render a template using data.
